@@ -119,6 +119,8 @@ def _universe(ia, ib, ic, ia2):
     b = docs.lexicon_small(p, 'B', tag='', ili=ib, two=True)          # reuses A's ids
     c = docs.lexicon_small(p, 'C', tag='c', ili=ic, language='de')
     x = docs.extension_small(p, 'X', base=('A', '1'), tag='x', btag='')
+    # the extension also gives the base entry e1 a new sense, attached to another base synset
+    x['entries'][0]['senses'].append({'id': 'xs9', 'synset': 'ss2', 'meta': None})
     xx = docs.extension_small(p, 'XX', base=('X', '1'), tag='y', btag='x', second=False)
     rt.DB()
     rt.stub_normalizer()
